@@ -4,7 +4,7 @@
    the commit of Model/Create.v).  The manifest *file name* (NNNN_<folder>_<UTC>Z.mhl) is not modelled: it is checked on
    the implementation by the oracle. *)
 From Coq Require Import Sorting.Sorted.
-From MHL Require Import Model.Commands Gen.Generated Proofs.BaseFacts Proofs.CommitFacts Proofs.HistFacts Proofs.FreshFacts Model.Naming Proofs.NamingFacts Proofs.TreeFacts Proofs.ReloadFacts.
+From MHL Require Import Model.Commands Gen.Generated Proofs.BaseFacts Proofs.CommitFacts Proofs.HistFacts Proofs.FreshFacts Model.Naming Proofs.NamingFacts Proofs.TreeFacts Proofs.ReloadFacts Proofs.SfNestedFacts.
 
 Theorem C06_commit_writes_after_commit : forall C cdig ser (old : hist C) doc p par,
   mkHist C (h_files C old ++ [mkMfile C (g_no doc) (ser doc) doc])
@@ -93,6 +93,16 @@ Theorem C06_runs_only_append : forall Hb matches C cdig ser rs h0 kids hs,
   exists hs', load C cdig (fst (runs Hb matches C cdig ser (Dir h0 kids) rs)) = inl hs' /\ Forall2 (ext C cdig ser) hs hs'.
 Proof. exact runs_only_append. Qed.
 Print Assumptions C06_runs_only_append.
+(* ... UNCONDITIONALLY for runs without rename detection: the hypothesis `no run is aborted` of C06_runs_only_append is a
+   theorem for folder mode without -dr and for -sf (C03_nested_create_never_aborts, C03_nested_sf_never_aborts).  So: ANY
+   sequence of such runs, on ANY well-formed tree whose histories load, whatever the runs find (altered, missing or new
+   files; exit 0, 10 or 11): none is aborted, every later load succeeds, every history only grew. *)
+Theorem C06_any_runs_only_append : forall Hb matches C cdig ser rs h0 kids hs, Forall no_dr rs ->
+  wf_tree C (Dir h0 kids) -> load C cdig (Dir h0 kids) = inl hs ->
+  Forall (fun o => o_outcome o <> Abort) (snd (runs Hb matches C cdig ser (Dir h0 kids) rs)) /\
+  exists hs', load C cdig (fst (runs Hb matches C cdig ser (Dir h0 kids) rs)) = inl hs' /\ Forall2 (ext C cdig ser) hs hs'.
+Proof. exact runs_append_unconditional. Qed.
+Print Assumptions C06_any_runs_only_append.
 Theorem C06_ext_means : forall C cdig ser x y, ext C cdig ser x y ->
   lh_root y = lh_root x /\ lh_parent y = lh_parent x /\
   exists more morec, lh_gens y = lh_gens x ++ more /\ lh_chain y = lh_chain x ++ morec /\
